@@ -21,6 +21,9 @@ func c04Params(thorough bool) []histParams {
 	ps := []histParams{
 		{Name: "V40-R100-L200", V: 40, R: 100, L: 200, G: 70, Gaps: []int64{20, 60, 120, 220}, Policy: pol, User: carol, Alphabet: "c04", MaxDepth: 12},
 		{Name: "V40-R100-L300-fine", V: 40, R: 100, L: 300, G: 70, Gaps: []int64{10, 50, 110, 310}, Policy: pol, User: carol, Alphabet: "c04", MaxDepth: 40},
+		// the authenticator reports a token that has no time left (login in the last second of the token's
+		// life): every request must go back to the authenticator
+		{Name: "V40-R0-L200-token-expires-at-once", V: 40, R: 0, L: 200, G: 70, Gaps: []int64{20, 60, 220}, Policy: pol, User: carol, Alphabet: "c04", MaxDepth: 6},
 		{Name: "V40-R100-L200-upstream-sets-cookie", V: 40, R: 100, L: 200, G: 70, Gaps: []int64{20, 60, 120, 220}, Policy: pol, User: carol, Alphabet: "c04", MaxDepth: 12, UpstreamCookie: true},
 	}
 	if thorough {
@@ -36,6 +39,8 @@ func c04Params(thorough bool) []histParams {
 func c05Params(thorough bool) []histParams {
 	pol := policy{Name: "grp", Groups: polGroups}
 	ps := []histParams{{Name: "G70-V40-R100-L300", V: 40, R: 100, L: 300, G: 70, Gaps: []int64{30, 50, 80, 110}, Policy: pol, User: carol, Alphabet: "c05", MaxDepth: 4},
+		// the grace period switched off: an unavailable authenticator at a due check always refuses
+		{Name: "G0-V40-R100-L300-grace-off", V: 40, R: 100, L: 300, G: 0, Gaps: []int64{30, 50, 110}, Policy: pol, User: carol, Alphabet: "c05", MaxDepth: 4},
 		{Name: "G70-V40-R100-L300-upstream-sets-cookie", V: 40, R: 100, L: 300, G: 70, Gaps: []int64{30, 50, 80, 110}, Policy: pol, User: carol, Alphabet: "c05", MaxDepth: 4, UpstreamCookie: true}}
 	if thorough {
 		ps = []histParams{
